@@ -253,7 +253,8 @@ def check_pipeline(ck, scratch):
                 hi = lo + ck.rng.randint(1, max(1, L // 2))
                 rows.append((nm, lo, hi))
                 if ck.rng.random() < 0.3:     # nested / overlapping
-                    rows.append((nm, lo + ck.rng.randint(0, 3), max(lo + 1, hi - ck.rng.randint(0, 3))))
+                    lo2 = lo + ck.rng.randint(0, 3)
+                    rows.append((nm, lo2, max(lo2 + 1, hi - ck.rng.randint(0, 3))))
             ex = os.path.join(scratch, 'p%d_ex%d.bed' % (i, j))
             with open(ex, 'w') as fh:
                 for r in rows:
